@@ -18,7 +18,8 @@ RULE = ("single runs over ALL 9*9*3^6 attribute dictionaries (fg, bg in 8 colour
         "(fmtstr spellings, fmtfuncs, +, slicing, *) over plain, control, wide and combining characters; "
         "observation: exact str(f) vs the model's render, and the SGR reference interpreter on the "
         "implementation's string vs the per-character cells. non-trivial = at least one character and one "
-        "attribute; distinct = distinct (runs) value")
+        "attribute; distinct = distinct (runs) value. Before the first case the process has written FmtStrs whose "
+        "colours were given as floats equal to the table's numbers (their own output is not judged)")
 TRUSTED = [
     "Coq 8.16.1 kernel incl. vm_compute (no native_compute); Print Assumptions: closed under the global context",
     "reference SGR interpreter coq/Spec/Sgr.v (independent of the code's constants)",
@@ -30,6 +31,24 @@ ASSUMPTIONS = ["text free of ESC (27) and 8-bit CSI (155), as the property's qua
                "attribute values are the eight colours / True / False (what parse_args admits)"]
 
 TEXTS = ["x", "hi\n", "\tＥ́", "a b;1m[", ""]
+
+
+def _earlier_in_the_process():
+    """What a process may have done before the first FmtStr of the check is written: colours given by numbers that are
+    EQUAL to the table's numbers without being the same objects -- floats (parse_args admits 31.0, it compares with
+    `in`), and ints that are not the interned small ones.  Their own output is not judged (the quantifier is over
+    the colours parse_args documents); what is judged is that nothing they leave behind (a table keyed by value)
+    changes what an ordinary FmtStr writes afterwards."""
+    from curtsies.formatstring import fmtstr
+    for n in list(range(30, 38)) + list(range(40, 48)):
+        for spelling in (float(n), int(str(n) * 1)):
+            try:
+                str(fmtstr("q", **{"fg" if n < 40 else "bg": spelling}))
+            except Exception:  # noqa: a tree that refuses such numbers has nothing to leave behind
+                pass
+
+
+_earlier_in_the_process()
 
 
 def generate(rng, tier):
